@@ -70,4 +70,38 @@ def replay_sigalg(inp):
             bad.append({"side": "server", "declared": "rsa-sha2-256", "signature_algorithm": "ssh-rsa", "why": "authenticated"})
     finally:
         a.close(); b.close()
-    return {"violates": bool(bad), "detail": bad}
+    # server with ssh-rsa disabled: an unsigned probe declaring an enabled algorithm, then a signed request for the same
+    # key declaring (and signed with) the disabled one - on one connection
+    a, b = socket.socketpair()
+    try:
+        t = Transport(a, disabled_algorithms={"pubkeys": ["ssh-rsa"]})
+        t.server_mode = True
+        t.server_object = AllowAll()
+        t.packetizer = FakePacketizer([])
+        t.session_id = b"S" * 20
+        t.active = True
+        h = AuthHandler(t)
+        t.auth_handler = h
+
+        def request(alg, signed):
+            m = Message()
+            m.add_string("alice"); m.add_string("ssh-connection"); m.add_string("publickey"); m.add_boolean(signed)
+            m.add_string(alg); m.add_string(k.asbytes())
+            if signed:
+                blob = h._get_session_blob(k, "ssh-connection", "alice", alg)
+                m.add_string(k.sign_ssh_data(blob, alg).asbytes())
+            return Message(m.asbytes())
+        for first in (None, "rsa-sha2-256", "rsa-sha2-512"):
+            h.authenticated = False
+            if first:
+                h._parse_userauth_request(request(first, False))
+            try:
+                h._parse_userauth_request(request("ssh-rsa", True))
+            except SSHException:
+                pass
+            if h.authenticated:
+                bad.append({"side": "server", "disabled": "ssh-rsa", "probe": first, "signed_request": "ssh-rsa",
+                            "why": "authenticated with a disabled signature algorithm"})
+    finally:
+        a.close(); b.close()
+    return {"violates": bool(bad), "detail": bad[:3]}
